@@ -273,7 +273,9 @@ func reference(qi int) (outcome, error) {
 	}
 	// the repository's own in-memory kind mapper is stateful (it defines kinds on first sight):
 	// repeating a call against the SAME mapper instance must still give byte-identical SQL
-	if d := repeatOnStatefulMapper(qi); d != "" {
+	if d := repeatOnStatefulMapper(qi); strings.HasPrefix(d, "PANIC") {
+		return o, fmt.Errorf("PANIC translating %q against a pgutil.InMemoryKindMapper: %s", corpus[qi].text, d)
+	} else if d != "" {
 		return o, fmt.Errorf("repeated translation of %q against one pgutil.InMemoryKindMapper differs: %s", corpus[qi].text, d)
 	}
 	// repeated solo calls must already agree (map iteration order is the only nondeterminism here)
@@ -309,7 +311,21 @@ func repeatOnStatefulMapper(qi int) string {
 		if err != nil {
 			return ""
 		}
-		res, err := translate.Translate(context.Background(), q, m, cloneParams(corpus[qi].params), translate.DefaultGraphID)
+		var (
+			res translate.Result
+			pan string
+		)
+		func() {
+			defer func() {
+				if r := recover(); r != nil {
+					pan = fmt.Sprintf("%v\n%s", r, debug.Stack())
+				}
+			}()
+			res, err = translate.Translate(context.Background(), q, m, cloneParams(corpus[qi].params), translate.DefaultGraphID)
+		}()
+		if pan != "" {
+			return "PANIC in call " + strconv.Itoa(i+1) + ": " + pan
+		}
 		out := ""
 		if err != nil {
 			out = "ERR " + err.Error()
